@@ -64,58 +64,49 @@ def walk_public():
 # Public callables without a recipe, with the reason.  (Everything here is
 # reported in the evidence under coverage.uncovered.)
 UNCOVERED = {
-    'photutils.aperture.attributes.ApertureAttribute': 'descriptor class (exercised through every aperture constructor recipe)',
-    'photutils.aperture.attributes.PixelPositions': 'descriptor class (exercised through every aperture constructor recipe)',
-    'photutils.aperture.attributes.PositiveScalar': 'descriptor class (exercised through every aperture constructor recipe)',
-    'photutils.aperture.attributes.ScalarAngle': 'descriptor class (exercised through every aperture constructor recipe)',
-    'photutils.aperture.attributes.ScalarAngleOrValue': 'descriptor class (exercised through every aperture constructor recipe)',
-    'photutils.aperture.attributes.SkyCoordPositions': 'descriptor class (exercised through every sky-aperture recipe)',
-    'photutils.aperture.bounding_box.BoundingBox': 'pure container of four integers (no array-like argument)',
-    'photutils.aperture.circle.CircularMaskMixin': 'mixin (exercised through CircularAperture/CircularAnnulus)',
-    'photutils.aperture.ellipse.EllipticalMaskMixin': 'mixin (exercised through EllipticalAperture/EllipticalAnnulus)',
-    'photutils.aperture.rectangle.RectangularMaskMixin': 'mixin (exercised through RectangularAperture/RectangularAnnulus)',
-    'photutils.aperture.core.Aperture': 'abstract base class',
-    'photutils.aperture.core.PixelAperture': 'abstract base class',
-    'photutils.aperture.core.SkyAperture': 'abstract base class',
-    'photutils.background.core.BackgroundBase': 'abstract base class',
-    'photutils.background.core.BackgroundRMSBase': 'abstract base class',
-    'photutils.datasets.examples.make_100gaussians_image': 'no caller-held argument (bool flag only)',
-    'photutils.datasets.examples.make_4gaussians_image': 'no caller-held argument (bool flag only)',
-    'photutils.datasets.load.get_path': 'file / remote data loader',
     'photutils.datasets.load.load_irac_psf': 'file / remote data loader',
     'photutils.datasets.load.load_simulated_hst_star_image': 'file / remote data loader',
     'photutils.datasets.load.load_spitzer_catalog': 'file / remote data loader',
     'photutils.datasets.load.load_spitzer_image': 'file / remote data loader',
     'photutils.datasets.load.load_star_image': 'file / remote data loader',
-    'photutils.datasets.noise.make_noise_image': 'no caller-held argument (shape tuple and scalars only)',
-    'photutils.datasets.wcs.make_gwcs': 'no caller-held argument (shape tuple only)',
-    'photutils.datasets.wcs.make_wcs': 'no caller-held argument (shape tuple only)',
-    'photutils.detection.core.StarFinderBase': 'abstract base class',
-    'photutils.geometry.circular_overlap.circular_overlap_grid': 'scalar arguments only (compiled kernel; see C01)',
-    'photutils.geometry.elliptical_overlap.elliptical_overlap_grid': 'scalar arguments only (compiled kernel; see C01)',
-    'photutils.geometry.rectangular_overlap.rectangular_overlap_grid': 'scalar arguments only (compiled kernel; see C01)',
-    'photutils.isophote.geometry.EllipseGeometry': 'scalar arguments only (exercised as the geometry argument of the Ellipse recipes)',
-    'photutils.profiles.core.ProfileBase': 'abstract base class',
-    'photutils.psf.gridded_models.STDPSFGrid': 'file loader',
-    'photutils.psf.model_io.GriddedPSFModelRead': 'file loader (registry reader)',
-    'photutils.psf.model_io.stdpsf_reader': 'file loader',
-    'photutils.psf.model_io.webbpsf_reader': 'file loader',
-    'photutils.psf.model_plotting.ModelGridPlotMixin': 'plotting mixin',
-    'photutils.psf.photometry.ModelImageMixin': 'mixin (exercised through PSFPhotometry / IterativePSFPhotometry)',
-    'photutils.segmentation.utils.make_2dgaussian_kernel': 'scalar arguments only',
-    'photutils.utils.colormaps.make_random_cmap': 'plotting helper (scalar arguments only)',
-    'photutils.utils.exceptions.NoDetectionsWarning': 'warning class',
-    'photutils.utils.footprints.circular_footprint': 'scalar arguments only',
 }
 
-# members never evaluated by ``Ctx.members`` (reported in describe())
-PLOT_PREFIXES = ('plot', 'imshow', 'as_artist', 'to_patches', 'make_cmap', 'cmap', 'reset_cmap')
+# Abstract base classes, mixins and descriptor classes cannot be called on their own.  They count as covered through a
+# concrete class (value: its qualified name) when ``coverage()`` can verify that (a) the concrete class derives from it /
+# uses the descriptor, (b) a recipe covers the concrete class and (c) every public member the base class or mixin defines
+# is called on instances of the concrete class -- by a pass of ``Ctx.members`` or by an explicit recipe step
+# (``registry_members.not_evaluated``); descriptors: through the constructor and the attribute-assignment steps of the
+# aperture recipes.  Anything that fails the verification is reported as unclassified.
+VIA_CONCRETE = {
+    'photutils.aperture.attributes.ApertureAttribute': 'photutils.aperture.circle.CircularAperture',
+    'photutils.aperture.attributes.PixelPositions': 'photutils.aperture.circle.CircularAperture',
+    'photutils.aperture.attributes.PositiveScalar': 'photutils.aperture.circle.CircularAperture',
+    'photutils.aperture.attributes.ScalarAngle': 'photutils.aperture.ellipse.SkyEllipticalAperture',
+    'photutils.aperture.attributes.ScalarAngleOrValue': 'photutils.aperture.ellipse.EllipticalAperture',
+    'photutils.aperture.attributes.SkyCoordPositions': 'photutils.aperture.circle.SkyCircularAperture',
+    'photutils.aperture.circle.CircularMaskMixin': 'photutils.aperture.circle.CircularAperture',
+    'photutils.aperture.ellipse.EllipticalMaskMixin': 'photutils.aperture.ellipse.EllipticalAperture',
+    'photutils.aperture.rectangle.RectangularMaskMixin': 'photutils.aperture.rectangle.RectangularAperture',
+    'photutils.aperture.core.Aperture': 'photutils.aperture.circle.CircularAperture',
+    'photutils.aperture.core.PixelAperture': 'photutils.aperture.circle.CircularAperture',
+    'photutils.aperture.core.SkyAperture': 'photutils.aperture.circle.SkyCircularAperture',
+    'photutils.background.core.BackgroundBase': 'photutils.background.core.MeanBackground',
+    'photutils.background.core.BackgroundRMSBase': 'photutils.background.core.StdBackgroundRMS',
+    'photutils.detection.core.StarFinderBase': 'photutils.detection.daofinder.DAOStarFinder',
+    'photutils.profiles.core.ProfileBase': 'photutils.profiles.radial_profile.RadialProfile',
+    'photutils.psf.model_plotting.ModelGridPlotMixin': 'photutils.psf.gridded_models.GriddedPSFModel',
+    'photutils.psf.photometry.ModelImageMixin': 'photutils.psf.photometry.PSFPhotometry',
+}
+
+# plotting / patch methods: not called by the first pass of ``Ctx.members`` (C15 compares numbers); the second pass
+# (C10, ``Ctx._member_extras``) calls them with non-default arguments
+PLOT_PREFIXES = ('plot', 'imshow', 'as_artist', 'to_patches', 'make_cmap')
 # documented in-place mutators of their own object (exempt by the property text)
 MUTATORS = {'relabel_consecutive', 'remove_border_labels', 'remove_masked_labels', 'reassign_label',
             'reassign_labels', 'keep_label', 'keep_labels', 'remove_label', 'remove_labels',
             'add_extra_property', 'remove_extra_property', 'remove_extra_properties', 'rename_extra_property',
             'reset_ids', 'append', 'extend', 'insert', 'sort', 'fix_geometry', 'update', 'update_sma', 'reset_sma',
-            'set_threshold', 'constrain_centers', 'register_epsf'}
+            'set_threshold', 'constrain_centers', 'register_epsf', 'reset_cmap'}
 
 # --------------------------------------------------------------------------
 # the scene
@@ -493,9 +484,14 @@ class Ctx:
     """Hands out arguments in one representation / data condition, executes
     steps, watches the caller-held objects."""
 
-    def __init__(self, rep, cond, seed, integer_scene=False, scale=1.0, maskform='cond', geom='base', domain='full'):
+    def __init__(self, rep, cond, seed, integer_scene=False, scale=1.0, maskform='cond', geom='base', domain='full', extras=False):
         import astropy.units as u
         self.domain = domain                 # value domain (C15): see DOMAINS
+        # C10: ``members`` also calls the plotting / patch / region members and the members that need arguments, with the
+        # NON-default argument sets of ``registry_members`` and watching the object itself; recipes run their
+        # ``if c.extras:`` steps (C15 compares numbers and leaves them out)
+        self.extras = extras
+        self.masks_out = []                  # (name, 'all-False' | 'some-True', is a view) of every mask handed out
         # companion slots (C15, one companion at a time): every unit-ful companion argument handed out has a slot name
         self.solo = tuple(rep.split(':', 1)) if ':' in rep else None      # (mode, slot)
         self.slots = collections.OrderedDict()      # slot name -> number of hand-outs
@@ -806,7 +802,24 @@ class Ctx:
     def mask(self, region=None, name='mask', even_for_nddata=False):
         if (self.rep in NDDATA_REPS and not even_for_nddata) or self.sc['mask'] is None:
             return None
-        return self.array(name, self._cut(self.sc['mask'], region), kind='aux')
+        return self._log_mask(name, self.array(name, self._cut(self.sc['mask'], region), kind='aux'))
+
+    def _log_mask(self, name, m):
+        self.masks_out.append((name, 'some-True' if np.any(m) else 'all-False', m.base is not None))
+        return m
+
+    def own_mask(self, name, true_pixels):
+        """A boolean mask-like argument the recipe builds itself (source mask,
+        coverage mask): it follows the mask form of the run like ``mask()``
+        does -- all-False where the scene's mask argument is an all-False array
+        (condition 'negatives', mask form 'empty'), ``true_pixels`` otherwise --
+        and the memory layout of the representation (a view of a larger array
+        in 'view', with the parent watched)."""
+        sm = self.sc['mask']
+        a = np.array(true_pixels, dtype=bool)
+        if sm is not None and not sm.any():
+            a = np.zeros(a.shape, bool)
+        return self._log_mask(name, self.array(name, a, kind='aux'))
 
     def clean(self, kind='data', region=None):
         """float64 clean scene array (for set-up work that is not under test)."""
@@ -871,18 +884,77 @@ class Ctx:
                 self.changes.append((label, k, ['values outside the view']))
         return res
 
-    def members(self, label, obj, skip=(), only=None):
+    def members(self, label, obj, skip=(), only=None, own=False):
         """Evaluate every public property and every public method that can be
-        called without arguments, one step each (sorted by name)."""
+        called without arguments, one step each (sorted by name).  ``own``:
+        only the members defined by photutils classes (for astropy Model
+        subclasses).  With ``extras`` (C10) a second pass follows, see
+        ``_member_extras``."""
         if obj is None:
             return
-        for name, kind in member_names(type(obj)):
+        for name, kind in member_names(type(obj), own=own):
             if name in skip or (only is not None and name not in only):
                 continue
             if kind == 'property':
                 self.step(f'{label}.{name}', lambda n=name: getattr(obj, n))
             elif kind == 'method0':
                 self.step(f'{label}.{name}()', lambda n=name: getattr(obj, n)())
+        if self.extras:
+            self._member_extras(label, obj, skip, only, own)
+
+    def _member_extras(self, label, obj, skip, only, own):
+        """Second pass of ``members`` (C10): every plotting / patch member and
+        every member that needs arguments is called with the NON-default
+        argument sets of ``registry_members`` (plotting members without an entry
+        get theirs from the signature: an Axes, origin != 0, scale != 1, patch
+        keywords), methods with optional arguments get their listed non-default
+        variants.  While this pass runs the object itself is watched as 'self'
+        (its caches are filled by the first pass: a cached value that changes is
+        a modification), unless it is already watched under another name, is
+        exempt (``SELF_EXEMPT``) or the call is a documented mutator of it."""
+        from . import registry_members as M
+        cls = type(obj)
+        watch_self = not any(v is obj for v in self.held.values()) and not M.self_exempt(cls)
+        if watch_self:
+            self.hold('self', obj)
+        try:
+            for name, kind in member_names(cls, own=own):
+                if name in skip or (only is not None and name not in only) or kind in ('property', 'mutator'):
+                    continue
+                for variant, build, mutates_self in M.argument_sets(cls, name, kind):
+                    if mutates_self and watch_self:
+                        self.held.pop('self', None)
+                    args, kwargs = build(self, obj)
+                    lab = f'{label}.{name}({variant})'
+                    self.step(lab, lambda n=name, a=args, k=kwargs: getattr(obj, n)(*a, **k), keep_output=False)
+                    M.after_plot(self)
+                    if mutates_self and watch_self:
+                        self.hold('self', obj)
+        finally:
+            if watch_self:
+                self.held.pop('self', None)
+                if self.before is not None:
+                    self.before.pop('self', None)
+
+    # ---- plotting helpers (C10 extras) ---------------------------------------
+    def plot_ax(self):
+        """The Axes the plotting members draw on (one per process, cleared
+        after every plotting step)."""
+        from . import registry_members as M
+        return M.axes()
+
+    def plot_step(self, label, thunk):
+        """A step that draws on ``plot_ax()``; what it drew is removed afterwards."""
+        from . import registry_members as M
+        res = self.step(label, thunk, keep_output=False)
+        M.after_plot(self)
+        return res
+
+    def plot_origin(self):
+        """A non-zero ``origin`` handed over as an ndarray the caller holds."""
+        if 'plot_origin' not in self.held:
+            self.hold('plot_origin', np.array([3.5, -2.0]))
+        return self.held['plot_origin']
 
 
 def _cell_filled(cell):
@@ -900,32 +972,38 @@ class NotApplicable(Exception):
 _MEMBER_CACHE = {}
 
 
-def member_names(cls):
+def member_names(cls, own=False):
     """[(name, kind)] with kind in {'property', 'method0', 'method-needs-args',
-    'plot', 'mutator'} for every public member of ``cls``."""
-    if cls in _MEMBER_CACHE:
-        return _MEMBER_CACHE[cls]
+    'plot', 'mutator'} for every public member of ``cls`` (``own``: only those
+    defined by a photutils class of its MRO)."""
+    if (cls, own) in _MEMBER_CACHE:
+        return _MEMBER_CACHE[cls, own]
     from astropy.utils import lazyproperty
+    own_names = set()
+    for k in cls.__mro__:
+        if k.__module__.startswith('photutils.'):
+            own_names |= set(vars(k))
     out = []
     for name in sorted(dir(cls)):
-        if name.startswith('_'):
+        if name.startswith('_') or (own and name not in own_names):
             continue
         try:
             a = inspect.getattr_static(cls, name)
         except AttributeError:
             continue
-        if name.startswith(PLOT_PREFIXES):
-            out.append((name, 'plot'))
-        elif name in MUTATORS:
+        if name in MUTATORS:
             out.append((name, 'mutator'))
         elif isinstance(a, (property, lazyproperty)) or (hasattr(type(a), '__get__') and not callable(a)
                                                          and not isinstance(a, (classmethod, staticmethod))):
             out.append((name, 'property'))
         elif inspect.isfunction(a):
+            if name.startswith(PLOT_PREFIXES):
+                out.append((name, 'plot'))
+                continue
             params = list(inspect.signature(a).parameters.values())[1:]
             free = [p for p in params if p.default is p.empty and p.kind not in (p.VAR_POSITIONAL, p.VAR_KEYWORD)]
             out.append((name, 'method0' if not free else 'method-needs-args'))
-    _MEMBER_CACHE[cls] = out
+    _MEMBER_CACHE[cls, own] = out
     return out
 
 
@@ -955,13 +1033,13 @@ def recipe(name, covers, nddata=False, units=False, numeric=True, slow=False, ax
     return deco
 
 
-def run_recipe(name, rep, cond, seed, integer_scene=False, scale=1.0, maskform='cond', geom='base', domain='full'):
+def run_recipe(name, rep, cond, seed, integer_scene=False, scale=1.0, maskform='cond', geom='base', domain='full', extras=False):
     """Execute one recipe; returns the context (steps, changes, outputs) or
     None when the combination is not applicable."""
     r = RECIPES[name]
     if (rep in NDDATA_REPS and not r.nddata) or geom not in r.geoms:
         return None
-    c = Ctx(rep, cond, seed, integer_scene=integer_scene, scale=scale, maskform=maskform, geom=geom, domain=domain)
+    c = Ctx(rep, cond, seed, integer_scene=integer_scene, scale=scale, maskform=maskform, geom=geom, domain=domain, extras=extras)
     try:
         with warnings.catch_warnings():
             warnings.simplefilter('ignore')
@@ -971,21 +1049,50 @@ def run_recipe(name, rep, cond, seed, integer_scene=False, scale=1.0, maskform='
     return c
 
 
+def _resolve(qualname):
+    mod, name = qualname.rsplit('.', 1)
+    return getattr(importlib.import_module(mod), name)
+
+
+def via_concrete(base_name, covered):
+    """Recipes through which an abstract base class / mixin / descriptor class
+    is covered (see ``VIA_CONCRETE``), or None when the claim does not verify."""
+    from . import registry_members as M
+    conc_name = VIA_CONCRETE.get(base_name)
+    if conc_name is None or conc_name not in covered:
+        return None
+    try:
+        base, conc = _resolve(base_name), _resolve(conc_name)
+    except Exception:
+        return None
+    if base_name.startswith('photutils.aperture.attributes.'):
+        used = any(isinstance(inspect.getattr_static(conc, k, None), base) for k in dir(conc))
+        return covered[conc_name] if used else None
+    if not issubclass(conc, base):
+        return None
+    missing = {n for names in M.not_evaluated(conc).values() for n in names}
+    own = {n for n in vars(base) if not n.startswith('_')} - MUTATORS
+    return covered[conc_name] if not (own & missing) else None
+
+
 def coverage():
     pub = walk_public()
     covered = collections.defaultdict(list)
     for r in RECIPES.values():
         for cname in r.covers:
             covered[cname].append(r.name)
-    out = {'public_callables': len(pub), 'covered': {}, 'uncovered': {}, 'unclassified': [], 'stale_registry_names': []}
+    out = {'public_callables': len(pub), 'covered': {}, 'covered_through_concrete_class': {}, 'uncovered': {}, 'unclassified': [],
+           'stale_registry_names': []}
     for n in sorted(pub):
         if n in covered:
             out['covered'][n] = covered[n]
         elif n in UNCOVERED:
             out['uncovered'][n] = UNCOVERED[n]
+        elif via_concrete(n, covered) is not None:
+            out['covered_through_concrete_class'][n] = {'concrete_class': VIA_CONCRETE[n], 'recipes': via_concrete(n, covered)}
         else:
             out['unclassified'].append(n)
-    for n in list(covered) + list(UNCOVERED):
+    for n in list(covered) + list(UNCOVERED) + list(VIA_CONCRETE):
         if n not in pub:
             out['stale_registry_names'].append(n)
     return out
